@@ -10,7 +10,7 @@ import (
 
 func init() {
 	Register(&Scenario{Prop: "C15", Name: "load-limit", Run: scenC15, SoftParks: true, Weight: 1,
-		Rule: "node T persists a log of 1-9 (thorough 1-20) entries: single-writer chain, or several heads built from local writes plus entries replicated from 1-2 feeders under reorder; T is closed; then for EVERY limit n in {-3,-1,0,1,...,total+3}, given per call or through the MaxHistory option, the final durable image is reopened in isolation and Load(n) runs; oracle: n>0 => exactly min(n,total) entries visible, in an order consistent with the full listing, newest entry included, and for a single-writer log exactly the n most recent; n<=0 => everything; never a panic or an error on a short log; in a third of the cases a second Load with another limit follows on the same store object (no panic, no error, still a part of the log in its order with the newest entry; how many entries a second load shows is not judged); in a sixth of the cases every block read of the load takes 2-5 virtual seconds (a slow disk; the caller allows two minutes); in a fifth of the cases with a positive limit one local write lands while the load is under way (both succeed; at most min(n,total) of the persisted entries visible, in order; an entry beyond the limit only if it is that write and it is the newest; view = replay of the log); one evaluation = one persisted log with all its limits; non-trivial = total>=3 and at least one limit strictly inside (0,total) and one beyond total"})
+		Rule: "node T persists a log of 1-9 (thorough 1-20) entries: single-writer chain, or several heads built from local writes plus entries replicated from 1-2 feeders under reorder; T is closed; then for EVERY limit n in {-3,-1,0,1,...,total+3}, given per call or through the MaxHistory option, the final durable image is reopened in isolation and Load(n) runs; oracle: n>0 => exactly min(n,total) entries visible, in an order consistent with the full listing, newest entry included, and for a single-writer log exactly the n most recent; n<=0 => everything; never a panic or an error on a short log; in a third of the cases a second Load with another limit follows on the same store object (no panic, no error, still a part of the log in its order with the newest entry; how many entries a second load shows is not judged); in a sixth of the cases every block read of the load takes 2-5 virtual seconds (a slow disk; the caller allows half an hour); in a fifth of the cases with a positive limit one local write lands while the load is under way (both succeed; at most min(n,total) of the persisted entries visible, in order; an entry beyond the limit only if it is that write and it is the newest; view = replay of the log); one evaluation = one persisted log with all its limits; non-trivial = total>=3 and at least one limit strictly inside (0,total) and one beyond total"})
 }
 
 func scenC15(k *K) {
@@ -120,19 +120,21 @@ func c15LoadOpt(k *K, c *Cluster, T *Node, lim int, viaOption bool, full []strin
 	}
 	var lop *Op
 	if !refusedInHistory && k.C.Chance(1, 6) {
-		// a slow disk: every block read of the load takes 2-5 virtual seconds (well within the
-		// caller's two minutes): the load takes its time and shows what it would show anyway
+		// a slow disk: every block read of the load takes 2-5 virtual seconds (the caller allows
+		// half an hour): the load takes its time and shows what it would show anyway
 		how += " on a slow disk"
 		k.W.Stat("load-on-slow-disk")
 		rp.Inc.SetSlowLocal(true)
 		lop = k.Go(rn.Idx, how, func() (interface{}, error) {
-			ctx, cancel := OpCtx(2 * time.Minute)
+			// the caller allows half an hour: a load whose context ends before the last
+			// block has been read shows less, without an error (that is not judged here)
+			ctx, cancel := OpCtx(30 * time.Minute)
 			defer cancel()
 			return nil, st.Load(ctx, callLim)
 		})
 		saved := k.F
 		k.F = FaultCfg{Serve: 1}
-		for j := 0; j < 60 && !k.IsDone(lop); j++ {
+		for j := 0; j < 200 && !k.IsDone(lop); j++ {
 			k.Tick(time.Duration(k.C.Range(2, 5)) * time.Second)
 			k.Step()
 		}
